@@ -13,7 +13,7 @@ kind, results, and a per-case wall-clock bound as the hang detector.
 from vh import core, gen, scenario as S, seekcheck as K, taskcheck as T
 
 PROP = 'C13'
-RULE = ("case = byte content from the malformed stream (never starting with the gzip magic) "
+RULE = ("case = byte content from the malformed stream (starting with the gzip magic number only in the form gzip itself refuses: unknown method) "
         "x decode_errors in {None, ignore, replace, backslashreplace} x 1..4 simple/sequence "
         "searches x with/without file-level since constraint x with/without per-search "
         "constraints; thorough adds multi-MiB single-line files; non-trivial = the content "
@@ -58,6 +58,8 @@ def gen_content(rng, tier):
         data = gen.assemble(rng, lines)
     if data[:2] == b'\x1f\x8b':
         data = b'x' + data
+    if rng.random() < 0.03:
+        data = gen.magic_prefixed(rng, data)      # plain text behind the gzip magic number
     return data
 
 
@@ -73,8 +75,12 @@ def gen_scenario(rng, tier, big=False):
     for _ in range(rng.choice([1, 2, 3, 4])):
         d = gen.gen_seq_def(rng) if rng.random() < 0.25 else gen.gen_simple_def(rng)
         defs.append(d)
-    scn = {'files': [{'name': 'f0.log', 'content': data.hex()}], 'defs': defs,
-           'regs': [[i, 0] for i in range(len(defs))],
+    files = [{'name': 'f0.log', 'content': data.hex()}]
+    if not big and rng.random() < 0.04:
+        # two files: the searches run in worker processes, which must decode by the same policy
+        files.append({'name': 'f1.log', 'content': gen_content(rng, tier).hex()})
+    scn = {'files': files, 'defs': defs,
+           'regs': [[i, k] for i in range(len(defs)) for k in range(len(files))],
            'decode_errors': rng.choice([None, None, 'ignore', 'replace', 'backslashreplace'])}
     if scn['decode_errors'] is None:
         del scn['decode_errors']
@@ -118,7 +124,9 @@ def run(tier, seed, replay_case=None):
     mruns = T.run_models([it['scn'] for it in items], drv)
     for it, mr in zip(items, mruns):
         scn, impl = it['scn'], it['impl']
-        data = S.file_bytes(scn['files'][0])
+        data = b'\n'.join(S.file_bytes(f) for f in scn['files'])
+        if len(scn['files']) > 1:
+            rep.count('multi_file_runs')
         try:
             data.decode('utf-8')
             bad_utf8 = False
